@@ -274,6 +274,33 @@ func c16arbitrator(c *Ctx) {
 				dels = append(dels, cl)
 			}
 		}
+		// a removal inside a function literal that is called on the spot (an inlined helper with its own defer)
+		// counts at the call of the literal
+		for _, cl := range an.Calls(fn, false) {
+			var lit *ssa.Function
+			switch v := cl.Common().Value.(type) {
+			case *ssa.MakeClosure:
+				lit, _ = v.Fn.(*ssa.Function)
+			case *ssa.Function:
+				if v.Parent() == fn {
+					lit = v
+				}
+			}
+			if lit == nil {
+				// ... or inside an in-package helper that was split off (kept as a call when it has a defer of its own)
+				if callee := cl.Common().StaticCallee(); callee != nil && callee.Pkg == fn.Pkg && callee != fn && len(callee.Blocks) > 0 {
+					lit = callee
+				}
+			}
+			if lit == nil {
+				continue
+			}
+			for _, c2 := range an.Calls(lit, true) {
+				if an.IsBuiltinCall(c2.Value(), "delete") && strings.HasSuffix(an.Path(c2.Common().Args[0]), ".waitingCollection") {
+					dels = append(dels, cl)
+				}
+			}
+		}
 		ok := mark != nil && len(dels) > 0
 		for _, d := range dels {
 			if !mustPass(mark, d) {
